@@ -617,5 +617,65 @@ def rule_extract(repo: Repo) -> RuleResult:
     return r
 
 
+def rule_footprint(repo: Repo) -> RuleResult:
+    """what an action reads and writes is collected from EVERY effect group: inside the walk over `grounded_effects` no path through one
+    group may skip the collection of its discrete or of its numeric effects (an effect group may have only one of the two kinds)"""
+    r = RuleResult("C15.footprint", "the add / delete / numeric effects of every effect group of an operator are collected (no group is skipped)",
+                   "two actions share a joint step only if they do not interfere: the interference test sees all the effects")
+    mod = repo.module("multi_agent.single_agent_plan_converter")
+    done = set()
+    found = False
+    for raw in [x for x in repo.all_funcs() if x.mod is mod]:
+        f = L.fn(repo, raw.qn.split("::", 1)[1] if raw.cls else raw.qn)
+        p = L.prov(repo, f)
+        g = C.cfg_of(f.node)
+        G = L.Guards(f, lambda e: None)
+
+        def over(it, field):
+            try:
+                return any(x[-1] == f"attr:{field}" or (x[-1] in ("call:copy",) and x[-2] == f"attr:{field}") for x in p.trace(it))
+            except KeyError:
+                return False
+
+        for lp in [n for n in ast.walk(f.node) if isinstance(n, ast.For) and over(n.iter, "grounded_effects")]:
+            key = (getattr(lp, "lineno", 0), getattr(lp, "col_offset", 0))
+            if key in done:
+                continue
+            done.add(key)
+            found = True
+            for field, what in (("grounded_discrete_effects", "discrete"), ("grounded_numeric_effects", "numeric")):
+                r.site(L.site(f, lp, f"{what} effects of every group"))
+                inner = [n for n in ast.walk(lp) if n is not lp and isinstance(n, ast.For) and over(n.iter, field)]
+                inner_nodes = {g.node_of(n) for n in inner}
+                for st in ast.walk(lp):     # comprehension / generator forms: the statement that holds them
+                    if isinstance(st, ast.stmt) and st is not lp and not isinstance(st, ast.For):
+                        hdr = C.header(st)
+                        if hdr is not None and any(isinstance(c, ast.comprehension) and over(c.iter, field) for c in ast.walk(hdr)):
+                            inner_nodes.add(g.node_of(st))
+                inner_nodes.discard(None)
+                if not inner_nodes:
+                    r.fail(Finding("C15.footprint", f, f"effects-not-collected:{what}", f"the {what} effects of the effect groups are not collected", node=lp))
+                elif not L.must_pass_in_loop(G, {}, lp, inner_nodes):
+                    r.fail(Finding("C15.footprint", f, f"group-skipped:{what}", f"some path through one effect group skips the collection of its {what} effects "
+                                   f"(a group with only the other kind of effects is then invisible to the interference test)", node=lp))
+                else:
+                    r.ok({"function": f.qn, "effects": what, "collected_for_every_group": True})
+        for comp in [n for n in ast.walk(f.node) if isinstance(n, ast.comprehension) and over(n.iter, "grounded_effects")]:
+            key = (getattr(comp.iter, "lineno", 0), getattr(comp.iter, "col_offset", 0), "c")
+            if key in done:
+                continue
+            done.add(key)
+            found = True
+            r.site(L.site(f, comp.iter, "effect groups in a comprehension"))
+            if comp.ifs:
+                r.fail(Finding("C15.footprint", f, "group-filtered", f"effect groups are filtered ({unparse(comp.ifs[0], 50)}) before their effects are collected", node=comp.iter))
+            else:
+                r.ok({"function": f.qn, "groups": "unfiltered"})
+    if not found:
+        raise AnalysisError("C15.footprint: no walk over operator.grounded_effects found in the plan converter")
+    r.require_sites(2)
+    return r
+
+
 def rules(repo: Repo, tier: str) -> List[RuleResult]:
-    return [rule_guard(repo), rule_once(repo), rule_thread(repo), rule_agent(repo), rule_extract(repo)]
+    return [rule_guard(repo), rule_once(repo), rule_thread(repo), rule_agent(repo), rule_extract(repo), rule_footprint(repo)]
